@@ -168,16 +168,32 @@ pub fn emit_module(k: usize, spec: &AppSpec) -> String {
     }
     // ---- generic wrappers: one generic constructor per lifecycle, instantiated by the consumers' signatures
     let used_kinds: std::collections::BTreeSet<u8> = spec.comps.iter().flat_map(|c| c.gens.iter().map(|(k, _)| *k % 4)).collect();
+    let mut concrete: std::collections::BTreeSet<(u8, usize)> = Default::default();
+    spec.walk_regs(&mut |r, _| {
+        if let Reg::Gen { kind, concrete_for: Some(t) } = r {
+            concrete.insert((*kind % 4, *t));
+        }
+    });
     for kind in &used_kinds {
         let (letter, life) = GEN_KINDS[*kind as usize];
+        let l = letter.to_lowercase();
         if *kind == 3 {
             // generic *and* holding on to its input: `GV<'a, T>`
-            let _ = writeln!(s, "pub struct GV<'a, T>(pub &'a T);");
-            let _ = writeln!(s, "#[pavex::{life}(id = \"M{k}_GV\")]\npub fn g_v<'a, T>(inner: &'a T) -> GV<'a, T> {{\n    GV(inner)\n}}\n");
-            continue;
+            let _ = writeln!(s, "pub struct GV<'a, T> {{ pub tag: crate::rt::Tag, pub inner: &'a T }}");
+            let _ = writeln!(s, "#[pavex::{life}(id = \"M{k}_GV\")]\npub fn g_v<'a, T>(inner: &'a T) -> GV<'a, T> {{\n    GV {{ tag: crate::rt::Tag::fresh(\"m{k}::GV\", \"m{k}::g_v\"), inner }}\n}}\n");
+        } else {
+            let _ = writeln!(s, "pub struct G{letter}<T> {{ pub tag: crate::rt::Tag, pub _p: std::marker::PhantomData<fn() -> T> }}");
+            let _ = writeln!(s, "#[pavex::{life}(id = \"M{k}_G{letter}\")]\npub fn g_{l}<T>(inner: &T) -> G{letter}<T> {{\n    let _ = inner;\n    G{letter} {{ tag: crate::rt::Tag::fresh(\"m{k}::G{letter}\", \"m{k}::g_{l}\"), _p: std::marker::PhantomData }}\n}}\n");
         }
-        let _ = writeln!(s, "pub struct G{letter}<T>(pub std::marker::PhantomData<fn() -> T>);");
-        let _ = writeln!(s, "#[pavex::{life}(id = \"M{k}_G{letter}\")]\npub fn g_{}<T>(inner: &T) -> G{letter}<T> {{\n    let _ = inner;\n    G{letter}(std::marker::PhantomData)\n}}\n", letter.to_lowercase());
+        // concrete constructors for single instantiations
+        for (_, t) in concrete.iter().filter(|(kk, _)| kk == kind) {
+            let tn = ty_in_sig(spec, *t);
+            if *kind == 3 {
+                let _ = writeln!(s, "#[pavex::{life}(id = \"M{k}_GCV_{t}\")]\npub fn gc_v_{t}<'a>(inner: &'a {}) -> GV<'a, {}> {{\n    GV {{ tag: crate::rt::Tag::fresh(\"m{k}::GV\", \"m{k}::gc_v_{t}\"), inner }}\n}}\n", tn.replace("'_", "'a"), tn.replace("'_", "'a"));
+            } else {
+                let _ = writeln!(s, "#[pavex::{life}(id = \"M{k}_GC{letter}_{t}\")]\npub fn gc_{l}_{t}(inner: &{tn}) -> G{letter}<{tn}> {{\n    let _ = inner;\n    G{letter} {{ tag: crate::rt::Tag::fresh(\"m{k}::G{letter}\", \"m{k}::gc_{l}_{t}\"), _p: std::marker::PhantomData }}\n}}\n");
+            }
+        }
     }
     let peel_handler: Option<usize> = if spec.peel && !spec.types.is_empty() {
         let mut first = None;
@@ -211,6 +227,7 @@ pub fn emit_module(k: usize, spec: &AppSpec) -> String {
         for (n, (kind, inner)) in c.gens.iter().enumerate() {
             let lt = if *kind % 4 == 3 { "'_, " } else { "" };
             let _ = write!(sig, "g{n}: &G{}<{lt}{}>, ", GEN_KINDS[*kind as usize % 4].0, ty_in_sig(spec, *inner));
+            let _ = writeln!(body, "    crate::rt::recv(\"{name}\", &g{n}.tag, \"ref\");");
         }
         let asy = if c.is_async { "async " } else { "" };
         // middlewares may ask for typed path parameters too (the carrier is `route.path_param_fields`)
@@ -334,7 +351,15 @@ pub fn emit_module(k: usize, spec: &AppSpec) -> String {
     {
         let used_kinds: std::collections::BTreeSet<u8> = spec.comps.iter().flat_map(|c| c.gens.iter().map(|(k, _)| *k % 4)).collect();
         for kind in used_kinds {
-            let _ = writeln!(s, "    bp0.constructor(M{k}_G{});", GEN_KINDS[kind as usize].0);
+            let mut explicit = false;
+            spec.walk_regs(&mut |r, _| {
+                if matches!(r, Reg::Gen { kind: kk, .. } if *kk % 4 == kind) {
+                    explicit = true;
+                }
+            });
+            if !explicit {
+                let _ = writeln!(s, "    bp0.constructor(M{k}_G{});", GEN_KINDS[kind as usize].0);
+            }
         }
     }
     if spec.peel && !spec.types.is_empty() && spec.comps.iter().any(|c| c.kind == CompKind::Handler) {
@@ -402,6 +427,17 @@ fn emit_regs(k: usize, spec: &AppSpec, regs: &[Reg], depth: usize, s: &mut Strin
                     }
                     let module = if in_own_module(t, *variant) { format!("cs{ty}_{variant}::") } else { String::new() };
                     let _ = writeln!(s, "{ind}{bp}.constructor({module}M{k}_C{ty}_{variant}){over};");
+                }
+            }
+            Reg::Gen { kind, concrete_for } => {
+                let letter = GEN_KINDS[*kind as usize % 4].0;
+                match concrete_for {
+                    Some(t) => {
+                        let _ = writeln!(s, "{ind}{bp}.constructor(M{k}_GC{letter}_{t});");
+                    }
+                    None => {
+                        let _ = writeln!(s, "{ind}{bp}.constructor(M{k}_G{letter});");
+                    }
                 }
             }
             Reg::Comp { idx } => {
